@@ -16,6 +16,7 @@ import (
 	"time"
 
 	"github.com/ipfs/go-cid"
+	"github.com/ipld/go-ipld-prime"
 	"github.com/ipld/go-ipld-prime/datamodel"
 	cidlink "github.com/ipld/go-ipld-prime/linking/cid"
 	"github.com/ipld/go-ipld-prime/node/basicnode"
@@ -87,6 +88,8 @@ var cmdRenderings = []map[string]string{
 	{"a": "éé", "b": "x"},
 	{"a": "日本", "b": "abc"},
 	{"b": "ß"},
+	{"b": "-"},  // a continuation by a character that sorts BEFORE the separator
+	{"b": " x"}, // ... by a blank
 }
 
 func (w *world) cmdOf(chars []string) (command.Command, error) {
@@ -266,6 +269,13 @@ func concreteArgs(p int) *args.Args {
 	_ = a.Add("e", []int{})
 	_ = a.Add("r", "aaa"+strconv.Itoa(p)) // a repeated letter: the literal after a star starts, fails, and starts again inside what was read
 	_ = a.Add("k", basicnode.NewLink(linkFor("c1")))
+	if err := a.Add("n", mapNode(map[string]ipld.Node{"v": datamodel.Null, "w": basicnode.NewInt(int64(p))})); err != nil { // a field that is PRESENT and null
+		panic(err)
+	}
+	if err := a.Add("g", []any{map[string]any{"can": p, "on": "x"}}); err != nil { // a list of records
+		panic(err)
+	}
+	_ = 0 // a list of records (keys that DAG-CBOR orders differently from text order)
 	return a
 }
 
@@ -286,7 +296,14 @@ func init() {
 	// == on lists: same length, same elements - a prefix is not the list
 	policyCatalogue["[]"] = append(policyCatalogue["[]"], `["==", ".l", [0]]`, `["==", ".l", [1, 9, 9]]`, `["==", ".e", [1]]`, `["==", ".l", []]`, `["==", ".m", {"k": 1, "j": 2}]`)
 	policyCatalogue["[1]"] = append(policyCatalogue["[1]"], `["==", ".l", [1, 9]]`, `["not", ["or", [["==", ".l", [0, 9]], ["==", ".l", [2, 9]], ["==", ".l", [1]]]]]`)
-	policyCatalogue["[0 1 2]"] = append(policyCatalogue["[0 1 2]"], `["==", ".e", []]`, `["not", ["==", ".l", [9]]]`)
+	policyCatalogue["[0 1 2]"] = append(policyCatalogue["[0 1 2]"], `["==", ".e", []]`, `["not", ["==", ".l", [9]]]`,
+		`["==", ".n.v", null]`, `["==", ".n.v?", null]`, `["not", ["==", ".n.v?", 3]]`)
+	// a present null under an optional selector is a value (null), not "no value"
+	policyCatalogue["[]"] = append(policyCatalogue["[]"], `["==", ".n.v?", 3]`, `["like", ".n.v?", "*"]`, `["<=", ".n.v?", 100]`, `["==", ".g", [{"on": "x", "can": 7}]]`)
+	policyCatalogue["[1]"] = append(policyCatalogue["[1]"], `["==", ".g", [{"on": "x", "can": 1}]]`, `["==", ".g[0]", {"on": "x", "can": 1}]`)
+	// not over or / any whose FIRST operand looks at optional data that is absent: the true operand further on still counts
+	policyCatalogue["[0 2]"] = append(policyCatalogue["[0 2]"], `["not", ["any", ".l", ["or", [["==", ".zz?", 1], ["==", ".", 1]]]]]`)
+	policyCatalogue["[0 2 3]"] = append(policyCatalogue["[0 2 3]"], `["not", ["or", [["==", ".y?", 3], ["==", ".x", 1]]]]`)
 }
 
 // catalogueSelfCheck evaluates every catalogue statement on every argument point with the real
@@ -694,15 +711,20 @@ func chainReplay(prop string) replayFn {
 			}
 			return nil
 		}
+		if prop == "C05" || prop == "C04" {
+			if err := freshBounds(rep, ws[0], prop); err != nil {
+				return err
+			}
+		}
 		audGroups := map[string]map[bool]json.RawMessage{}
 		// the command property is replayed under every rendering of the letters, the others under one per case
 		rounds := 1
 		if prop == "C02" {
-			rounds = len(cmdRenderings)
+			rounds = 3 // three of the renderings per case, which ones rotates with the case
 		}
 		for idx0 := 0; idx0 < len(cases)*rounds; idx0++ {
 			idx, raw := idx0/rounds, cases[idx0/rounds]
-			w := ws[idx0%len(ws)]
+			w := ws[(idx+(idx0%rounds)*3+int(envSeed()))%len(ws)]
 			var c chainCase
 			if err := json.Unmarshal(raw, &c); err != nil {
 				return err
@@ -792,6 +814,67 @@ func chainReplay(prop string) replayFn {
 		rep.Extra["command_renderings"] = cmdRenderings
 		return nil
 	}
+}
+
+// freshBounds: delegations handed to the loader as their issuer built them a moment ago (bounds with a sub-second part): a
+// not-before of "now" has passed by the time of the check (C05: allowed), an expiration a few hundred milliseconds ahead
+// has not (C05: allowed) - and one a few hundred milliseconds back has (C04: refused).
+func freshBounds(rep *Report, w *world, prop string) error {
+	s, err := w.principal("S")
+	if err != nil {
+		return err
+	}
+	a, err := w.principal("A")
+	if err != nil {
+		return err
+	}
+	cmd := command.Command("/fresh")
+	for round := 0; round < 3; round++ {
+		// stay clear of a second boundary: the check below must happen within the same wall-clock second
+		for time.Now().Nanosecond() > 600_000_000 {
+			time.Sleep(20 * time.Millisecond)
+		}
+		for _, cs := range []struct {
+			name    string
+			opts    []delegation.Option
+			allowed bool
+		}{
+			{"not-before now", []delegation.Option{delegation.WithNotBeforeIn(0)}, true},
+			{"not-before 1 ms ago", []delegation.Option{delegation.WithNotBeforeIn(-time.Millisecond)}, true},
+			{"expiration 300 ms ahead", []delegation.Option{delegation.WithExpirationIn(300 * time.Millisecond)}, true},
+			{"expiration 1 ms ago", []delegation.Option{delegation.WithExpirationIn(-time.Millisecond)}, false},
+			{"not-before 300 ms ahead", []delegation.Option{delegation.WithNotBeforeIn(300 * time.Millisecond)}, false},
+		} {
+			if (prop == "C05") != cs.allowed {
+				continue
+			}
+			d, err := delegation.Root(s.id, a.id, cmd, policy.Policy{}, cs.opts...)
+			if err != nil {
+				return err
+			}
+			_, id, err := d.ToSealed(s.priv)
+			if err != nil {
+				return err
+			}
+			inv, err := invocation.New(a.id, s.id, cmd, []cid.Cid{id})
+			if err != nil {
+				return err
+			}
+			rep.Evaluations++
+			t0 := time.Now()
+			verr := inv.ExecutionAllowed(mapLoader{id: d})
+			if time.Since(t0) > 100*time.Millisecond {
+				continue // the machine stalled: no verdict from this one
+			}
+			c := map[string]any{"delegation": cs.name, "as": "the object its issuer built (sub-second bounds)"}
+			if cs.allowed && verr != nil {
+				rep.violation(c, "allowed", verr.Error(), "a chain whose only time bound is satisfied right now was refused")
+			} else if !cs.allowed && verr == nil {
+				rep.violation(c, "refused", "allowed", "a delegation that is not valid at the time of the check authorized an invocation")
+			}
+		}
+	}
+	return nil
 }
 
 // ---------------------------------------------------------------------------------------------
